@@ -5,6 +5,7 @@ package app
 import (
 	"fmt"
 	"testing"
+	"testing/synctest"
 
 	vk "github.com/yandex/mysync/internal/verifkit"
 )
@@ -100,4 +101,74 @@ func TestVerifC02(t *testing.T) {
 	m.DistinctNontrivial = dist.Len()
 	m.Rule = fmt.Sprintf("the real daemons (one App per host: state machine, health and recovery checkers) over fake servers and a shared coordination tree, client writes attempted on every node every tick: %d scenarios = fault kind (crash / isolation of a node, mysync killed, coordination lost by one host / by all, switchover to / from) x target host x injection instant within the tick cycle x duration 1/4/9 ticks x 2-4 nodes x required acknowledgements 1-2, plus failover disabled and a cascade replica (quick: every 9th, offset by the seed); 25-34 ticks of 5 s; distinct = distinct scenarios", len(ins))
 	o.WriteMeta("c02", m)
+}
+
+// TestVerifC02Heal: the single fault (the master is cut off or dies) heals IN THE MIDDLE of the failover it caused - at every
+// mutating statement of the real performSwitchover.  The old master is writable again for a moment and a client commits on it;
+// if a replica whose receiver thread was never stopped reconnects and acknowledges, the transaction is acknowledged and must
+// be on the node that ends up promoted and recorded.
+func TestVerifC02Heal(t *testing.T) {
+	o := vk.Open()
+	m := vk.NewMeta()
+	run := func(in c01In) (out c01Out) {
+		synctest.Test(t, func(t *testing.T) { out = c01Run(in) })
+		return
+	}
+	check := func(in c01In, out c01Out) {
+		m.Evaluations++
+		if out.AckedOnReturn == "" {
+			m.Count("commit_on_returned_master_not_acknowledged")
+			return
+		}
+		m.Count("commit_on_returned_master_acknowledged")
+		for _, p := range out.Promotions {
+			if p.Host == "h1" {
+				continue
+			}
+			fin := out.Final[p.Host]
+			if !vk.GtidContains(fin.Executed, out.AckedOnReturn) {
+				m.Violation("every transaction that was acknowledged to a client is present on the master the cluster ends with", map[string]any{"heal": in},
+					fmt.Sprintf("%s was acknowledged by %v on the returning old master while the failover ran; %s was promoted without it (%s)", out.AckedOnReturn, out.AckedBy, p.Host, fin.Executed))
+			}
+		}
+	}
+	var rp struct {
+		Heal *c01In `json:"heal"`
+	}
+	if vk.ReplayInput(&rp) && rp.Heal != nil {
+		check(*rp.Heal, run(*rp.Heal))
+		o.WriteMeta("c02heal", m)
+		return
+	}
+	n := 60
+	if o.Thorough() {
+		n = 600
+	}
+	for i := 0; i < n; i++ {
+		in := c01Gen(o)
+		// an automatic failover of a semi-sync cluster whose master is gone
+		in.From, in.To, in.Cause, in.Transition, in.SemiSync, in.Async = "h1", "", CauseAuto, "failover", true, false
+		in.Nodes[0].Down, in.LockLostAt = true, -1
+		in.Active = nil
+		for k := 1; k <= in.N; k++ {
+			if !in.Nodes[k-1].Cascade {
+				in.Active = append(in.Active, fmt.Sprintf("h%d", k))
+			}
+		}
+		base := run(in)
+		nm := 0
+		for _, e := range base.Trans {
+			if e.Mut && e.Host != "" {
+				nm++
+			}
+		}
+		m.Count(fmt.Sprintf("n_%d", in.N))
+		for k := 1; k <= nm; k++ {
+			rin := in
+			rin.ReturnAt = k
+			check(rin, run(rin))
+		}
+	}
+	m.Rule = "automatic failover of a semi-sync cluster (2-5 nodes, random positions / received tails / stopped SQL threads) run by the real performSwitchover; the dead master returns writable at each mutating statement in turn and commits once; acknowledged iff enough semi-sync replicas with a started receiver thread reach it"
+	o.WriteMeta("c02heal", m)
 }
